@@ -20,6 +20,11 @@
 (***************************************************************************)
 EXTENDS Naturals, Sequences, FiniteSets, TLC
 
+\* Deviation tags (what the code is known to do where it departs from the property):
+\*   D-C29-inner-whitespace         collectSignedHeaders trims but does not collapse runs of spaces
+\*   D-C29-query-sort-order         generateCanonicalQueryString sorts encoded, the Go SDK signer decoded strings
+\*   D-C28-malformed-query-ignored  pairs url.ParseQuery cannot parse are left out of the canonical query
+\*   D-C28-signature-param-ignored  every X-Amz-Signature parameter is left out, whatever the auth style / count
 CONSTANT Deviations      \* set of deviation tags the code is known to have
 CONSTANT Big             \* FALSE: quick case family, TRUE: thorough family
 Dev(t) == t \in Deviations
@@ -406,11 +411,13 @@ GenericMuts(s) ==
    Mk("h_add_listed", 0, 0, 0, "", "x-amz-extra"), Mk("host", 0, 0, 0, "", ""),
    Mk("cred", 0, 0, 0, "AK2", "key"), Mk("cred", 0, 0, 0, "AKX", "key"), Mk("cred", 0, 0, 0, "other", "date"),
    Mk("cred", 0, 0, 0, "other", "region"), Mk("cred", 0, 0, 0, "other", "service"), Mk("cred", 0, 0, 0, "other", "term"),
-   Mk("ts", 0, 0, 0, "alt", ""), Mk("ts", 0, 0, 0, "garbage", ""), Mk("ts", 0, 0, 0, "past_out", ""),
+   Mk("ts", 0, 0, 0, "garbage", ""),
    Mk("sig", 0, 0, 0, "flip", ""), Mk("sig", 0, 0, 0, "prefix", ""), Mk("sig", 0, 0, 0, "upper", ""),
    Mk("sig", 0, 0, 0, "dropped", ""), Mk("list_add", 0, 0, 0, "", "x-amz-absent"), Mk("list_del", 0, 0, 0, "", "host"),
    Mk("strip", 0, 0, 0, "", "")}
   \cup {Mk("q_add", 0, 0, 0, t, "") : t \in {"normal", "empty", "malformed", "semicolon", "blank"}}
+  \* replacing the timestamp by another one of the same day (harness: relative to the signing time)
+  \cup (IF s.skew = "now" THEN {Mk("ts", 0, 0, 0, "alt", ""), Mk("ts", 0, 0, 0, "past_out", "")} ELSE {})
   \cup (IF s.md5 THEN {} ELSE {Mk("h_add", 0, 0, 0, "", "content-md5")})
   \cup (IF s.auth = "header"
         THEN {Mk("authform", 0, 0, 0, "", ""), Mk("list_del", 0, 0, 0, "", "x-amz-content-sha256"),
